@@ -162,6 +162,9 @@ int main(int argc,char **argv)
 		for(int e=0;e<execs;e++) {
 			reset();
 			int ntr = 1 + R(names); // triggers drawn from the top `ntr` names
+			if(e==0) { // fixed prelude (also the anchor of the binding self-test): hit, rise of the key itself, miss
+				std::vector<int> none; op_store(1,none,1000); op_fetch(1); op_rise(1); op_fetch(1);
+			}
 			for(int n=0;n<nops;n++) {
 				unsigned c=R(100);
 				int now=(int)(vt::fake_now-vt::clock_base);
